@@ -1,4 +1,4 @@
 (* REGENERATED from src/mxlpy/{scan,mc,parallel,simulation}.py by harness/c09.py; do not edit.
    An unrecognised shape yields false / PhUnknown, which breaks C09_facts_pinned. *)
 From Scan Require Import ScanModel.
-Definition gen_scan_facts : scan_facts := mkScanFacts false true true true true true PhLinspaceNT.
+Definition gen_scan_facts : scan_facts := mkScanFacts true true true true true true PhStepGrid.
